@@ -124,13 +124,14 @@ def _task(args: tuple) -> dict:
         "seed": seed,
         "digest": res["digest"],
         "violation": res.get("violation"),
+        "violations": res.get("violations") or ([res["violation"]] if res.get("violation") else []),
         "probes": res.get("probes", {}),
         "stats": res.get("stats", {}),
         "states": res.get("states", []),
         "wall": res["wall"],
         "harness_error": res.get("harness_error"),
     }
-    if res.get("violation") or keep_case:
+    if out["violations"] or keep_case:
         out["case"] = case
     if keep_case:
         out["events"] = res.get("events")
@@ -204,6 +205,14 @@ def generic_reductions(case: dict) -> Iterator[dict]:
             yield c
 
 
+def _all_violations(res: dict) -> list[dict]:
+    return res.get("violations") or ([res["violation"]] if res.get("violation") else [])
+
+
+def _sigs(pid: str, res: dict) -> list[str]:
+    return [signature(pid, v) for v in _all_violations(res)]
+
+
 def minimise(pid: str, case: dict, sig: str, budget_s: float = 90.0, max_evals: int = 400) -> tuple[dict, int]:
     prop = load_prop(pid)
     reductions = getattr(prop, "reductions", None) or generic_reductions
@@ -220,8 +229,7 @@ def minimise(pid: str, case: dict, sig: str, budget_s: float = 90.0, max_evals: 
                 res = execute_case(pid, cand)
             except Exception:
                 continue
-            v = res.get("violation")
-            if v and signature(pid, v) == sig:
+            if sig in _sigs(pid, res):
                 case = cand
                 progress = True
                 break
@@ -259,19 +267,23 @@ def replay(pid: str, path: str) -> int:
     with open(path) as f:
         rep = json.load(f)
     res = execute_case(pid, rep["case"])
-    v = res.get("violation")
-    if not v:
+    vs = _all_violations(res)
+    if not vs:
         print(f"replay: no violation (expected {rep.get('expected_signature')})")
         return 0
-    sig = signature(pid, v)
     same_digest = res["digest"] == rep.get("digest")
-    print(f"replay: signature={sig} digest={res['digest']} same_digest={same_digest}")
-    print(json.dumps(v, indent=1, default=repr)[:4000])
-    if sig in known_for(pid):
-        print(f"KNOWN-FINDING: property={pid} {known_for(pid)[sig]['what_fails']}")
-        return 0
-    print(f"VIOLATION property={pid} replay={path}")
-    return 1
+    code = 0
+    known = known_for(pid)
+    for v in vs:
+        sig = signature(pid, v)
+        print(f"replay: signature={sig} digest={res['digest']} same_digest={same_digest}")
+        print(json.dumps(v, indent=1, default=repr)[:4000])
+        if sig in known:
+            print(f"KNOWN-FINDING: property={pid} {known[sig]['what_fails']}")
+        else:
+            print(f"VIOLATION property={pid} replay={path}")
+            code = 1
+    return code
 
 
 def replay_in_fresh_process(pid: str, path: str) -> tuple[bool, str]:
@@ -369,9 +381,8 @@ def run_check(pid: str, tier: str, verif_seed: int, *, runs: Optional[int] = Non
         known = known_for(pid)
         by_sig: dict[str, list[dict]] = {}
         for r in results:
-            v = r.get("violation")
-            if v:
-                by_sig.setdefault(signature(pid, v), []).append(r)
+            for v in r.get("violations") or []:
+                by_sig.setdefault(signature(pid, v), []).append(dict(r, violation=v))
         exit_code = 0
         n_viol = 0
         known_hits: dict[str, int] = {}
@@ -407,7 +418,7 @@ def run_check(pid: str, tier: str, verif_seed: int, *, runs: Optional[int] = Non
             os.makedirs(os.path.join(VERIF_DIR, "replays"), exist_ok=True)
             small, evals = minimise(pid, case, sig, budget_s=60 if tier == "quick" else 240)
             res = execute_case(pid, small)
-            v = res.get("violation") or r["violation"]
+            v = next((x for x in _all_violations(res) if signature(pid, x) == sig), r["violation"])
             path = os.path.join(VERIF_DIR, "replays", f"{pid}-{verif_seed}-{r['idx']}.json")
             with open(path, "w") as f:
                 json.dump(
